@@ -238,6 +238,8 @@ def _parse_pattern(p: Any):
 
 
 def unparse_pattern(e: dict) -> str:
+    if e.get("k") != "cat":  # a pattern outside the catalogue, carried verbatim by the family (the oracle answers "U" for it)
+        return uncps(e.get("src", []))
     def ch(c: int, in_class: bool) -> str:
         x = chr(c)
         if (in_class and x in "-]^\\[") or (not in_class and x in _SPECIAL):
